@@ -48,7 +48,7 @@ type gpObject struct {
 	name       string // the GraphQL type name, spelled as the schema spells it (any case, underscores, digits)
 	hand, root bool
 	goType     string // hand: the exported Go struct the type is bound to (the schema name need not be a Go name)
-	rootKind   string // root: query | mutation (the schema name of a root is free: `schema { query: query_root }`)
+	rootKind   string // root: query | mutation | subscription (the schema name of a root is free: `schema { query: query_root }`)
 	implements string
 	fields     []*gpField
 }
@@ -254,7 +254,7 @@ func (p *gpProject) handGo(pkg string) string {
 	return b.String()
 }
 
-// objsTok: what codegen.Data.Objects holds, for the Lean model: Name:reserved:field>key>reserved|…;…
+// objsTok: what codegen.Data.Objects holds, for the Lean model: Name:reserved[+Root][+Stream]:field>key>reserved|…;…
 func (p *gpProject) objsTok() string {
 	var parts []string
 	for _, o := range p.objects {
@@ -266,7 +266,15 @@ func (p *gpProject) objsTok() string {
 			// codegen adds the introspection entry points to the query root; both are reserved
 			fs = append(fs, "__schema>introspectschema>1", "__type>introspecttype>1")
 		}
-		parts = append(parts, o.name+":0:"+strings.Join(fs, "|"))
+		// the KIND of the object, as a template guard can read it: $object.Root (any root), $object.Stream (the subscription root)
+		attrs := ""
+		if o.root {
+			attrs = "+Root"
+		}
+		if o.rootKind == "subscription" {
+			attrs += "+Stream"
+		}
+		parts = append(parts, o.name+":0"+attrs+":"+strings.Join(fs, "|"))
 	}
 	parts = append(parts, "__Type:1:name>name>0|kind>kind>0", "__Field:1:name>name>0")
 	return strings.Join(parts, ";")
@@ -390,13 +398,13 @@ func parseGenCorpus(path string) []*gpProject {
 				}
 			}
 			if o.root {
-				// `root <name> [query|mutation]`
+				// `root <name> [query|mutation|subscription]`
 				o.rootKind = strings.ToLower(f[0])
 				if len(f) == 2 {
 					o.rootKind = f[1]
 				}
-				if o.rootKind != "query" && o.rootKind != "mutation" {
-					bad("root needs its kind: query | mutation")
+				if o.rootKind != "query" && o.rootKind != "mutation" && o.rootKind != "subscription" {
+					bad("root needs its kind: query | mutation | subscription")
 				}
 			}
 			p.objects = append(p.objects, o)
@@ -537,7 +545,29 @@ func randomGenProject(r *rng.R, name string) *gpProject {
 		&gpField{kind: "res", name: "things", args: "(first: Int)", typ: "[Thing!]", via: "name"},
 		&gpField{kind: "res", name: "scalar", typ: "Int!", via: "name"})
 	m := &gpObject{name: "Mutation", root: true, rootKind: "mutation", fields: []*gpField{{kind: "res", name: "bump", args: "(by: Int = 1)", typ: hands[0], via: "name"}}}
-	p.objects = append(p.objects, q, m)
+	// the ROOT dimension: every project has the three roots, each with fields that carry arguments (custom costs that depend
+	// on them) and with scalar / object / list / interface results. A subscription resolver returns a channel.
+	m.fields = append(m.fields, &gpField{kind: "res", name: "reset", args: "(n: Int! = 1, w: Float)", typ: "Int!", via: "name"})
+	sub := &gpObject{name: "Subscription", root: true, rootKind: "subscription"}
+	sub.fields = append(sub.fields, &gpField{kind: "res", name: "events", args: "(last: Int = 2, filter: Filter)", typ: "[Item!]", via: "name"},
+		&gpField{kind: "res", name: lcFirst(hands[0]) + "Feed", args: "(every: Int! = 1)", typ: hands[0] + "!", via: "name"})
+	if r.Bool() {
+		sub.fields = append(sub.fields, &gpField{kind: "res", name: "ticks", args: "(n: Int)", typ: "Int!", via: "name"})
+	}
+	if r.Bool() {
+		sub.fields = append(sub.fields, &gpField{kind: "res", name: "nodeChanged", args: "(id: ID!, depth: Int = 1)", typ: "Node", via: "name"})
+	}
+	for i := len(sub.fields) - 1; i > 0; i-- {
+		j := r.Below(i + 1)
+		sub.fields[i], sub.fields[j] = sub.fields[j], sub.fields[i]
+	}
+	// the roots come in any order among themselves (the templates range over .Objects in schema order)
+	roots := []*gpObject{q, m, sub}
+	for i := len(roots) - 1; i > 0; i-- {
+		j := r.Below(i + 1)
+		roots[i], roots[j] = roots[j], roots[i]
+	}
+	p.objects = append(p.objects, roots...)
 	for _, o := range p.objects {
 		if o.hand {
 			o.goType = o.name // the Go struct keeps the canonical name, the schema name is restyled below
@@ -658,7 +688,8 @@ func (p *gpProject) restyle(r *rng.R) {
 	for _, o := range p.objects {
 		switch {
 		case o.root:
-			ren[o.name] = [][]string{{"Query", "query", "query_root", "RootQuery", "QUERY"}, {"Mutation", "mutation", "mutation_root", "Mutations2", "Mutation"}}[map[string]int{"query": 0, "mutation": 1}[o.rootKind]][r.Below(5)]
+			ren[o.name] = [][]string{{"Query", "query", "query_root", "RootQuery", "QUERY"}, {"Mutation", "mutation", "mutation_root", "Mutations2", "Mutation"},
+				{"Subscription", "subscription", "subscription_root", "Subscriptions2", "SUBSCRIPTION"}}[map[string]int{"query": 0, "mutation": 1, "subscription": 2}[o.rootKind]][r.Below(5)]
 		case o.hand && firstHand:
 			firstHand = false
 			pick(o.name, lowerTypeStyles) // every project has a hand-written model whose type starts lower-case
@@ -990,7 +1021,7 @@ func runGenProj(outDir, corpus, tier string, seed uint64) {
 				}
 			}
 		}
-		for _, op := range ops {
+		loadOp := func(op gpOp) *opCase {
 			c := &opCase{schema: schema, query: op.query, vars: op.vars}
 			if c.vars == nil {
 				c.vars = map[string]any{}
@@ -1000,8 +1031,50 @@ func runGenProj(outDir, corpus, tier string, seed uint64) {
 				fmt.Fprintf(os.Stderr, "project %s: directed operation does not validate: %s: %v\n", p.name, op.query, c.errs)
 				os.Exit(3)
 			}
+			return c
+		}
+		for _, op := range ops {
+			c := loadOp(op)
 			for _, t := range tables {
 				emit(c, t, true, nil)
+			}
+		}
+		// the ROOT dimension: one operation of its own kind (query / mutation / subscription) per field of EVERY root, with
+		// only that field's ComplexityRoot entry set (constant far above the default cost; a multiple of the children; the
+		// value of its first Int argument x children, the operation passing 50) and with no entry at all, each through the
+		// gate at c-1 / c / c+1: a limit between the default and the custom cost tells a root whose functions are ignored
+		for _, o := range p.objects {
+			if !o.root {
+				continue
+			}
+			for _, f := range o.fields {
+				var args []string
+				intArg := ""
+				for _, a := range splitArgs(f.args) {
+					switch {
+					case strings.TrimSuffix(a[1], "!") == "Int" && intArg == "":
+						intArg = a[0]
+						args = append(args, a[0]+": 50")
+					case strings.HasSuffix(a[1], "!") && !strings.Contains(f.args, a[0]+": "+a[1]+" ="):
+						args = append(args, a[0]+": 4")
+					}
+				}
+				q := o.rootKind + " Op { " + f.name
+				if len(args) > 0 {
+					q += "(" + strings.Join(args, ", ") + ")"
+				}
+				if td := schema.Types[strings.Trim(f.typ, "[]!")]; composite(td) {
+					q += " { __typename }"
+				}
+				c := loadOp(gpOp{query: q + " }", vars: map[string]any{}})
+				k := o.name + "." + f.key()
+				ts := []customs{{k: {kind: "c", b: 1000}}, {k: {kind: "l", a: 3, b: 7}}, {}}
+				if intArg != "" {
+					ts = append(ts, customs{k: {kind: "a", arg: intArg, b: 0}})
+				}
+				for _, t := range ts {
+					emit(c, t, true, nil)
+				}
 			}
 		}
 		for i := 0; i < nOps; i++ {
